@@ -5,7 +5,8 @@ file times lie (restored snapshot, a regenerated Gen/*.v written back with ident
 against another checkout that regenerated Gen/ meanwhile).  Prints the files it invalidated."""
 import hashlib, sys
 from pathlib import Path
-coq = Path(__file__).resolve().parent.parent / "coq"
+import os
+coq = Path(os.environ.get("VERIF_COQ_DIR") or (Path(__file__).resolve().parent.parent / "coq"))
 n = 0
 for v in coq.rglob("*.v"):
     vo, glob = v.with_suffix(".vo"), v.with_suffix(".glob")
